@@ -41,10 +41,10 @@ Proof.
 Qed.
 
 Theorem dense_index_perm n key qmap : Permutation qmap (seq 0 n) -> length key = n ->
-  dense_sample_index key qmap = Some (idx (key_state n key qmap)).
+  dense_sample_index_prefix key qmap = Some (idx (key_state n key qmap)).
 Proof.
   intros P Lk. assert (Lq : length qmap = n) by (rewrite (Permutation_length P); apply seq_length).
-  unfold dense_sample_index. rewrite Lq.
+  unfold dense_sample_index_prefix. rewrite Lq.
   set (bit := fun q => match key_bit key qmap q with Some b => b | None => false end).
   rewrite (opt_all_some _ (fun i => weight n (bit i) i)).
   - cbn [option_map]. f_equal. fold (nsum (map (fun i => weight n (bit i) i) qmap)).
@@ -67,13 +67,95 @@ Proof. intros H. now rewrite (opt_all_some f g l H). Qed.
 Theorem samples_dense_perm n M fr qmap :
   is_diag M = true -> length M = 2 ^ n -> Permutation qmap (seq 0 n) ->
   Forall (fun kc : list bool * Z => length (fst kc) = n) fr ->
-  dense_samples M fr qmap = Some (samples_spec n M fr qmap, ftotal fr).
+  dense_samples_prefix M fr qmap = Some (samples_spec n M fr qmap, ftotal fr).
 Proof.
-  intros D L P F. unfold dense_samples. rewrite D. cbn [negb].
+  intros D L P F. unfold dense_samples_prefix. rewrite D. cbn [negb].
   rewrite (opt_all_some _ (fun kc : list bool * Z =>
      (fst (mget ZK M (idx (key_state n (fst kc) qmap)) (idx (key_state n (fst kc) qmap))) * snd kc)%Z)).
   - reflexivity.
   - intros kc Hk. rewrite Forall_forall in F. rewrite (dense_index_perm n) by (auto using F).
+    assert (Hl : idx (key_state n (fst kc) qmap) < length M).
+    { rewrite L. eapply Nat.lt_le_trans; [apply idx_lt|].
+      unfold key_state. rewrite map_length, seq_length. lia. }
+    apply Nat.ltb_lt in Hl. now rewrite Hl.
+Qed.
+
+(* ------------------------------------------------------------------ the live dense route (size = log2 len(obs)) *)
+Lemma nsum_zero {X} (l : list X) : nsum (map (fun _ => 0) l) = 0.
+Proof. induction l; cbn; auto. Qed.
+Lemma nsum_add {X} (f g : X -> nat) l : nsum (map (fun x => f x + g x) l) = nsum (map f l) + nsum (map g l).
+Proof. unfold nsum. induction l as [|x l IH]; cbn [map fold_right]; [reflexivity|]. rewrite IH. lia. Qed.
+Lemma fold_zero {X} a (l : list X) : fold_right Nat.add a (map (fun _ => 0) l) = a.
+Proof. induction l; cbn; auto. Qed.
+Lemma nsum_single (w : nat -> nat) x n : x < n -> nsum (map (fun i => if i =? x then w i else 0) (seq 0 n)) = w x.
+Proof.
+  induction n as [|n IH]; intros H; [lia|]. rewrite seq_S, map_app. cbn [Nat.add map].
+  unfold nsum in *. rewrite fold_right_app. cbn [fold_right].
+  destruct (Nat.eqb_spec n x) as [->|N].
+  - assert (Z0 : forall a, fold_right Nat.add a (map (fun i => if i =? x then w i else 0) (seq 0 x)) = a).
+    { intros a. rewrite (map_ext_in _ (fun _ => 0)).
+      - apply fold_zero.
+      - intros i Hi. apply in_seq in Hi. destruct (Nat.eqb_spec i x); [lia|reflexivity]. }
+    rewrite Z0. lia.
+  - rewrite Nat.add_0_r. apply IH. lia.
+Qed.
+
+Fixpoint memq (x : nat) (l : list nat) : bool :=
+  match l with [] => false | y :: l' => (x =? y) || memq x l' end.
+Lemma memq_In x l : memq x l = true <-> In x l.
+Proof.
+  induction l as [|y l IH]; cbn [memq In]; [split; [discriminate|tauto]|].
+  rewrite orb_true_iff, IH, Nat.eqb_eq. split; intros [H|H]; auto.
+Qed.
+
+Lemma nsum_nodup (w : nat -> nat) n l : NoDup l -> (forall x, In x l -> x < n) ->
+  nsum (map w l) = nsum (map (fun i => if memq i l then w i else 0) (seq 0 n)).
+Proof.
+  induction 1 as [|x l Hx Hl IH]; intros Hb.
+  - cbn [map memq]. now rewrite nsum_zero.
+  - cbn [map]. change (nsum (w x :: map w l)) with (w x + nsum (map w l)).
+    rewrite IH by (intros; apply Hb; now right).
+    rewrite <- (nsum_single w x n) by (apply Hb; now left). rewrite <- nsum_add.
+    f_equal. apply map_ext. intros i. cbn [memq]. destruct (Nat.eqb_spec i x) as [->|N]; cbn [orb]; [|reflexivity].
+    destruct (memq x l) eqn:M; [apply memq_In in M; contradiction|lia].
+Qed.
+
+Lemma index_of_None x l : ~ In x l -> index_of x l = None.
+Proof.
+  induction l as [|y l IH]; intros H; [reflexivity|]. cbn [index_of].
+  destruct (Nat.eqb_spec x y); [exfalso; apply H; now left|]. rewrite IH; [reflexivity|]. intro; apply H; now right.
+Qed.
+
+Theorem dense_index_live n key qmap : NoDup qmap -> (forall q, In q qmap -> q < n) ->
+  length key = length qmap ->
+  dense_sample_index n key qmap = Some (idx (key_state n key qmap)).
+Proof.
+  intros ND Hb Lk. unfold dense_sample_index.
+  set (bit := fun q => match key_bit key qmap q with Some b => b | None => false end).
+  rewrite (opt_all_some _ (fun i => weight n (bit i) i)).
+  - cbn [option_map]. f_equal. fold (nsum (map (fun i => weight n (bit i) i) qmap)).
+    rewrite (nsum_nodup _ n) by assumption. rewrite idx_sum. unfold key_state. rewrite map_length, seq_length.
+    f_equal. apply map_ext_in. intros i Hi. apply in_seq in Hi.
+    rewrite (nth_indep _ false (bit 0)) by (rewrite map_length, seq_length; lia).
+    rewrite (map_nth (fun q => bit q)), seq_nth by lia. cbn [Nat.add].
+    destruct (memq i qmap) eqn:M; [reflexivity|].
+    unfold bit, key_bit. rewrite index_of_None; [reflexivity|]. intro H. apply memq_In in H. congruence.
+  - intros i Hi. pose proof (Hb i Hi). destruct (Nat.leb_spec n i); [lia|].
+    destruct (key_bit_total key qmap (length qmap) i Lk eq_refl Hi) as (b & E). unfold bit. rewrite E. reflexivity.
+Qed.
+
+(* Hamiltonian.expectation_from_samples: any duplicate-free qubit map inside the register (full or
+   partial), keys with one bit per mapped qubit; unmapped qubits are read as 0 *)
+Theorem samples_dense_live n M fr qmap :
+  is_diag M = true -> length M = 2 ^ n -> NoDup qmap -> (forall q, In q qmap -> q < n) ->
+  Forall (fun kc : list bool * Z => length (fst kc) = length qmap) fr ->
+  dense_samples M fr qmap = Some (samples_spec n M fr qmap, ftotal fr).
+Proof.
+  intros D L ND Hb F. unfold dense_samples. rewrite L, Nat.log2_pow2 by lia. unfold dense_samples_n. rewrite D. cbn [negb].
+  rewrite (opt_all_some _ (fun kc : list bool * Z =>
+     (fst (mget ZK M (idx (key_state n (fst kc) qmap)) (idx (key_state n (fst kc) qmap))) * snd kc)%Z)).
+  - reflexivity.
+  - intros kc Hk. rewrite Forall_forall in F. rewrite (dense_index_live n) by (auto using F).
     assert (Hl : idx (key_state n (fst kc) qmap) < length M).
     { rewrite L. eapply Nat.lt_le_trans; [apply idx_lt|].
       unfold key_state. rewrite map_length, seq_length. lia. }
